@@ -80,6 +80,10 @@ type c12Transfer struct {
 	TEID        uint32     `json:"teid"`
 	UPF         HexBytes   `json:"upf_ipv4"`
 	Additional  *c12Tunnel `json:"additional_ul_tnl,omitempty"`
+	// AdditionalList: the Additional UL NG-U UP TNL Information (IE 126) in the form later versions of TS 38.413 give
+	// it: a list (SIZE(1..3)) of items holding one UP transport layer information each, instead of the single value the
+	// library's type still has. IE 139 in front of it is what the network encoded, whatever IE 126 looks like.
+	AdditionalList []c12Tunnel `json:"additional_ul_tnl_list,omitempty"`
 	NoFwd       bool       `json:"data_forwarding_not_possible,omitempty"`
 	SessionType uint64     `json:"pdu_session_type"`
 	SecInd      []uint64   `json:"security_indication,omitempty"` // integrity, confidentiality[, max rate]
@@ -270,13 +274,79 @@ func (x c12Transfer) value() (ngapType.PDUSessionResourceSetupRequestTransfer, e
 	return t, nil
 }
 
+type c12TNLItem struct {
+	NGUUPTNLInformation ngapType.UPTransportLayerInformation             `aper:"valueLB:0,valueUB:1"`
+	IEExtensions        *ngapType.ProtocolExtensionContainerGTPTunnelExtIEs `aper:"optional"`
+}
+
 func (x c12Transfer) build() ([]byte, error) {
-	v, err := x.value()
+	y := x
+	if len(x.AdditionalList) > 0 {
+		y.Additional = nil
+	}
+	v, err := y.value()
 	if err != nil {
 		return nil, err
 	}
 	b, _, err := refper.Encode(v, "valueExt")
-	return b, err
+	if err != nil || len(x.AdditionalList) == 0 {
+		return b, err
+	}
+	if len(x.AdditionalList) > 3 {
+		return nil, fmt.Errorf("at most three additional tunnels")
+	}
+	var items []c12TNLItem
+	for _, a := range x.AdditionalList {
+		var v4, v6 []byte
+		if len(a.V4) == 4 {
+			v4 = a.V4
+		}
+		if len(a.V6) == 16 {
+			v6 = a.V6
+		}
+		if v4 == nil && v6 == nil {
+			return nil, fmt.Errorf("additional tunnel without an address")
+		}
+		items = append(items, c12TNLItem{NGUUPTNLInformation: *tunnel(v4, v6, a.TEID)})
+	}
+	val, _, err := refper.Encode(items, "valueExt,sizeLB:1,sizeUB:3")
+	if err != nil {
+		return nil, err
+	}
+	if len(val) > 127 {
+		return nil, fmt.Errorf("list value too long for this builder")
+	}
+	ie := append([]byte{0x00, 126, 0x00, byte(len(val))}, val...) // id 126, criticality reject, length, value
+	// take the transfer apart: preamble octet, 16-bit count, then id(2) criticality(1) length value per IE
+	if len(b) < 3 {
+		return nil, fmt.Errorf("transfer too short")
+	}
+	cnt := int(b[1])<<8 | int(b[2])
+	p := 3
+	at := -1
+	for i := 0; i < cnt; i++ {
+		if p+4 > len(b) {
+			return nil, fmt.Errorf("transfer does not parse")
+		}
+		id := int(b[p])<<8 | int(b[p+1])
+		l, q := int(b[p+3]), p+4
+		if b[p+3]&0x80 != 0 {
+			if b[p+3]&0x40 != 0 || p+5 > len(b) {
+				return nil, fmt.Errorf("fragmented IE")
+			}
+			l, q = int(b[p+3]&0x3f)<<8|int(b[p+4]), p+5
+		}
+		p = q + l
+		if id == 139 {
+			at = p
+		}
+	}
+	if p != len(b) || at < 0 {
+		return nil, fmt.Errorf("transfer does not parse to its end (or has no IE 139)")
+	}
+	out := append([]byte{b[0], byte((cnt + 1) >> 8), byte(cnt + 1)}, b[3:at]...)
+	out = append(out, ie...)
+	return append(out, b[at:]...), nil
 }
 
 // ---------------------------------------------------------------- generators
@@ -410,6 +480,12 @@ func genTransfer(t *rapid.T) c12Transfer {
 			a.V6 = drawBytes(t, 16, "add_v6")
 		}
 		x.Additional = a
+	}
+	if x.Additional == nil && rapid.IntRange(0, 3).Draw(t, "has_add_list") == 1 {
+		n := rapid.IntRange(1, 3).Draw(t, "add_list_n")
+		for i := 0; i < n; i++ {
+			x.AdditionalList = append(x.AdditionalList, c12Tunnel{V4: drawBytes(t, 4, fmt.Sprintf("addl_v4_%d", i)), TEID: rapid.Uint32().Draw(t, fmt.Sprintf("addl_teid_%d", i))})
+		}
 	}
 	x.NoFwd = rapid.IntRange(0, 3).Draw(t, "nofwd") == 0
 	x.SessionType = uint64(rapid.SampledFrom([]int{0, 0, 0, 2}).Draw(t, "stype"))
@@ -559,6 +635,9 @@ func c12Oracle(c c12Case) ev.Verdict {
 	}
 	if x.Additional != nil {
 		v.Classes = append(v.Classes, "transfer/additional-tnl")
+	}
+	if len(x.AdditionalList) > 0 {
+		v.Classes = append(v.Classes, "transfer/additional-tnl-as-a-list(later version of TS 38.413)")
 	}
 	if len(x.Flows) >= 16 {
 		v.Classes = append(v.Classes, "transfer/flows>=16(2-octet open type length)")
